@@ -169,10 +169,15 @@ Fixpoint type_of (v : val) : option ident :=
    expression when that is a place or a segment x[a:b] of one.  Sound as long as the tagged value is not
    duplicated (the translator's aliasing check; a parallel assignment that permutes variables is not a
    duplication) and the callee does not keep the parameter beyond the call. *)
+(* The tags of the caller's own frame mean nothing inside the callee: they are removed from every argument.  A
+   written-back parameter has an unnamed slice type []T (Go converts a named slice such as array_ to it): the callee
+   gets the bare slice under its tag. *)
+Fixpoint untag (v : val) : val := match v with VTag _ w => untag w | _ => v end.
+Definition bare (v : val) : val := match as_slice v with Some l => VSlice l | None => v end.
 Fixpoint tag_args (wb : list nat) (i : nat) (args : list val) : list val :=
   match args with
   | [] => []
-  | a :: t => (if existsb (Nat.eqb i) wb then VTag i a else a) :: tag_args wb (S i) t
+  | a :: t => (if existsb (Nat.eqb i) wb then VTag i (bare a) else untag a) :: tag_args wb (S i) t
   end.
 Fixpoint find_tag (p : nat) (en : list (ident * val)) : option val :=
   match en with
@@ -342,7 +347,15 @@ Fixpoint store_wbs (args : list expr) (wbs : list (nat * val)) (en : env) : eres
   | [] => ROk en
   | (p, w) :: t =>
     match nth_error args (Nat.pred p) with
-    | Some a => if is_lplace a then do en1 <- i_assign r a w en; store_wbs args t en1 else store_wbs args t en
+    | Some a =>
+      if is_lplace a then
+        (* the elements come back; what the place holds stays the kind of slice it was (its name, its tag) *)
+        do (cur, _) <- i_eval r a en;
+        match as_slice w with
+        | Some l => do en1 <- i_assign r a (re_slice cur l) en; store_wbs args t en1
+        | None => RStuck
+        end
+      else store_wbs args t en
     | None => RStuck
     end
   end.
